@@ -51,3 +51,15 @@ Theorem C06_normal_form_keeps_meaning : forall cfg O S0 st e st',
     v6 O WNever (ser_top true true [] e) v = v6 O WNever S0 v.
 Proof. exact normal_form_keeps_meaning. Qed.
 Print Assumptions C06_normal_form_keeps_meaning.
+
+(* keyword level: the record the parser rebuilds from the keyword list the serializer emitted for
+   an element (given its sub-elements) carries the same value for every keyword: const, enum,
+   items, additionalItems, min/maxItems, uniqueItems, contains, the six numeric keywords, format,
+   pattern, min/maxLength, properties, patternProperties, additionalProperties, min/maxProperties,
+   propertyNames, dependencies (same_but lists them; default and description: the C07_serialized theorems) *)
+Theorem C06_keywords_round_trip : forall c k, local_dsl (EK c k) ->
+  same_but k (kw_record (ser_kwds true true sub k ++ json_type c)
+                        (k_properties k) (k_items k) (k_patternProperties k) (k_propertyNames k)
+                        (k_contains k) (k_dependencies k) (k_additionalProperties k) (k_additionalItems k)).
+Proof. exact bridge_same. Qed.
+Print Assumptions C06_keywords_round_trip.
